@@ -104,7 +104,7 @@ fn gen_base(t: &mut Tape) -> Scenario {
     opts.store(&mut sc);
     raw.store(&mut sc);
     sc.set_i("rk", if ep == EP_STREAM { RK_SLICE } else { [RK_SIM, RK_SIM, RK_BUFREADER][t.below(3) as usize] });
-    sc.set_i("bufcap", t.range(1, 64));
+    sc.set_i("bufcap", gen::draw_bufcap(t, 64));
     sc.set_l("src_script", gen::draw_script(t));
     sc.set_l("sink_script", gen::draw_script(t));
     if ep == EP_STREAM {
